@@ -232,7 +232,7 @@ Proof.
   replace [x] with (vscale K x [1]) by (unfold vscale; simpl; f_equal; ring).
   rewrite run_scale by auto. rewrite nth_vscale by auto. reflexivity.
 Qed.
-Lemma wf_app r Y1 Y2 idx1 idx2 : wfo r Y1 idx1 1 -> wf 1 Y2 idx2 -> wf r (Y1 ++ Y2) (idx1 ++ idx2).
+Lemma wf_app r (Y1 Y2 : list (core T)) idx1 idx2 : wfo r Y1 idx1 1 -> wf 1 Y2 idx2 -> wf r (Y1 ++ Y2) (idx1 ++ idx2).
 Proof.
   revert r idx1; induction Y1 as [|G Y1 IH]; intros r [|i idx1]; simpl; try tauto.
   - intros -> H; exact H.
